@@ -285,6 +285,7 @@ PLANS["C17"] = [("dump", ["typed1", "unsafe2", "typed53"]), ("drive:reset", ["ty
 PLANS["C11"] = [("core", ["typed1", "unsafe1", "exch8", "mapt1"]), ("batch", ["typed1", "typed53"]),
                 ("drive:mem", ["typed1", "unsafe2", "exch8", "typed11", "mapt42"]), ("drive:big", ["typed1", "unsafe3", "typed53"]), ("drive:mem64", ["typed1", "unsafe3", "typed53"])]
 PLANS["C07"] = [("lock", ["typed1", "unsafe2", "typed11"]), ("drive:lock", ["typed1", "unsafe2", "typed11"]), ("drive:lock64", ["typed1", "unsafe1"]),
+                ("drive:arity", ["typed11", "exch8"]),
                 ("cursor", []), ("suite", []), ("lockind", [])]
 PROP_CFG["C07"] = (dict(probes=2, misuse=8), dict(probes=4, misuse=-1))
 PLANS["C10"] = [("core", ["typed1", "unsafe1", "exch8", "mapt1"]), ("rel", ["typed1", "unsafe1", "typed11", "mapt1"]),
@@ -827,6 +828,14 @@ def finish(ctx, level_text):
     for v in ctx.violations:
         if v["cls"].startswith("ANY."):
             v["cls"] = ctx.pid + v["cls"][3:]
+    # A call that is valid in layer A and panics in the real code ends the history: the property under check quantifies
+    # over histories of valid operations and cannot hold for one the library refuses to continue.  When the check has
+    # nothing of its own to report, such a panic is reported for the property checked (e.g. World.Reset panicking inside
+    # cache.Reset after an unregistration: seed C05-cache-reset-ranges-over-ids).
+    if not any(v["cls"].startswith(ctx.pid + ".") for v in ctx.violations):
+        for v in list(ctx.violations):
+            if v["cls"].endswith(".valid-call-panicked") and not v["cls"].startswith(ctx.pid + "."):
+                ctx.violations.append(dict(v, cls=ctx.pid + ".valid-call-panicked"))
     own = [v for v in ctx.violations if v["cls"].startswith(ctx.pid + ".")]
     other = [v for v in ctx.violations if not v["cls"].startswith(ctx.pid + ".")]
     drift = [v for v in other if v["cls"].startswith("MODEL.")]
